@@ -127,6 +127,8 @@ type World struct {
 	heightNow    int      // best height before the operation being applied
 	Removed      []string // labels removed from the accepted set by marking (with descendants)
 	MarkedLabels []string // labels currently marked
+	hcfg         *headers.Config
+	hcfgLater    bool
 	Anomalies    []string // model-level anomalies (accepted header with unaccepted parent, ...)
 
 	SavedWork *big.Int // cumulative work of the reported tip at the last completed Save (nil: none)
@@ -163,16 +165,26 @@ func Safe(f func() error) (err error, panicked string) {
 	return f(), ""
 }
 
+// headersConfig returns the configuration value handed to every repository instance of this world.
+// One value serves all instances of a history (a supervisor restarting the repository in one
+// process keeps its configuration object), and it is rebuilt only when the operator extends the
+// list between runs (InvalidLater): whatever a repository does to the slices it was given is then
+// seen by the next instance, as it would be in such a process.
 func (w *World) headersConfig() *headers.Config {
+	later := w.restarts > 0 && len(w.Cfg.InvalidLater) > 0
+	if w.hcfg != nil && w.hcfgLater == later {
+		return w.hcfg
+	}
 	c := &headers.Config{Network: bitcoin.MainNet, MaxBranchDepth: w.Cfg.MaxBranchDepth}
 	for _, l := range w.Cfg.Invalid {
 		c.InvalidHeaderHashes = append(c.InvalidHeaderHashes, Get(l).Hash)
 	}
-	if w.restarts > 0 {
+	if later {
 		for _, l := range w.Cfg.InvalidLater {
 			c.InvalidHeaderHashes = append(c.InvalidHeaderHashes, Get(l).Hash)
 		}
 	}
+	w.hcfg, w.hcfgLater = c, later
 	return c
 }
 
@@ -236,7 +248,9 @@ func NewWorld(cfg Config) (*World, error) {
 		}
 	}
 	for _, l := range cfg.Invalid {
-		w.Marked = append(w.Marked, Get(l).Hash)
+		if !w.isMarked(Get(l).Hash) { // a configured list may repeat a hash
+			w.Marked = append(w.Marked, Get(l).Hash)
+		}
 	}
 	label := "G"
 	for i := 0; i < cfg.Prefix; i++ {
@@ -622,6 +636,13 @@ func (w *World) Apply(op Op) *Step {
 					w.Marked = append(w.Marked, Get(l).Hash)
 				}
 			}
+			// the configured list is merged into the stored one at every start: a configured hash
+			// that was unmarked during the previous run is refused again (a header already held stays)
+			for _, l := range w.Cfg.Invalid {
+				if !w.isMarked(Get(l).Hash) {
+					w.Marked = append(w.Marked, Get(l).Hash)
+				}
+			}
 			if op.K == "reload" {
 				w.notePrune(10000)
 				err, p = Safe(func() error { return w.Repo.Load(w.Ctx) })
@@ -766,6 +787,10 @@ func waitForSenders(n int, max time.Duration) {
 		}
 	}
 }
+
+// IsMarkedHash reports whether the header with this label is currently refused as marked invalid
+// (marked at run time or through the configuration).
+func (w *World) IsMarkedHash(l string) bool { return w.isMarked(Get(l).Hash) }
 
 // IsMarkedLabel reports whether the label is currently marked invalid.
 func (w *World) IsMarkedLabel(l string) bool {
